@@ -13,7 +13,7 @@ ID = "C06"
 LEVEL = "model_checking"
 RULE = (
     "All step lists of length 1..3 (thorough 1..4) over the scalar alphabet {Trend(0), Trend(1), Spline(damping), KNeighbors(2), "
-    "BlockReduce(median | average), BlockMean, nested Chain[Trend(1), Spline]} and the 2-component alphabet {Vector[Trend(1), "
+    "BlockReduce(median | average), BlockMean, nested Chain[Trend(1), Spline], nested reducing Chain[BlockReduce, Trend(1)]} and the 2-component alphabet {Vector[Trend(1), "
     "KNeighbors(1)], Vector[Trend(0), Spline], BlockReduce, BlockMean} with at least one predicting step, x 2 point sets on a 2x4 block "
     "layout with unequal populations x weights {none, distinct per point and component} x 1-D / 2-D data; each chain is compared with "
     "a reference that threads (coordinates, data, weights) by hand through FRESH instances of the steps using only their own "
@@ -31,6 +31,9 @@ SCALAR = {
     "BR": ["BlockReduce", {"reduction": "median", "spacing": 1.0}],
     "BM": ["BlockMean", {"spacing": 1.0}],
     "NC": ["Chain", {"steps": [["Trend", {"degree": 1}], ["Spline", {"damping": 1e-1}]]}],
+    # a nested chain that itself contains a block reduction: as a step of an outer chain its (inherited) filter must still return
+    # residuals at the ORIGINAL points (added after seed C06-2)
+    "NR": ["Chain", {"steps": [["BlockReduce", {"reduction": "mean", "spacing": 1.0}], ["Trend", {"degree": 1}]]}],
 }
 VECTOR = {
     "VTK": ["Vector", {"components": [["Trend", {"degree": 1}], ["KNeighbors", {"k": 1}]]}],
@@ -104,6 +107,8 @@ def _mk(alpha, key, weighted):
     spec = _table(alpha)[key]
     if key == "BR" and weighted:
         spec = ["BlockReduce", {"reduction": "average", "spacing": 1.0}]
+    if key == "NR" and weighted:
+        spec = ["Chain", {"steps": [["BlockReduce", {"reduction": "average", "spacing": 1.0}], ["Trend", {"degree": 1}]]}]
     return build(spec, 1.0)
 
 
@@ -189,6 +194,18 @@ def run(case, rec):
             if raised(got):
                 return rec.check(False, "Chain.predict raised %r" % (got,))
             _close(rec, got, want, scale, "Chain%s.predict" % steps)
+            if any(k in REDUCERS for k in steps):
+                # Chain.filter of a reducing chain: still (same coordinates, data - prediction at those coordinates, same weights)
+                ch2 = chain()
+                out = call(rec, ch2.filter, coords, data, wts)
+                if raised(out):
+                    rec.check(False, "Chain.filter raised %r" % (out,))
+                else:
+                    rec.check(isinstance(out, tuple) and len(out) == 3 and out[0] is coords and out[2] is wts, "filter must return the coordinates and weights it was given")
+                    at = _as_list(ch.predict(coords))
+                    want_res = [np.asarray(d) - np.asarray(p).reshape(np.shape(d)) for d, p in zip(_as_list(data), at)]
+                    if len(out) == 3:
+                        _close(rec, out[1], want_res, scale, "Chain.filter residuals of a reducing chain (data - prediction at the data)")
             if not any(k in REDUCERS for k in steps):
                 at_data = call(rec, ch.predict, coords)
                 if not raised(at_data):
@@ -209,6 +226,13 @@ def run(case, rec):
         # histories
         hist = case["hist"]
         A, Bd = args_for(0), args_for(1)
+        for a in (A, Bd):
+            probe = chain()
+            if raised(call(rec, probe.fit, *a)):
+                # the composition itself cannot be fitted (e.g. a weight-less reduction after a step that produces weights)
+                rec.trivial = True
+                rec.skip("composition not executable even on a fresh chain")
+                return
         ch = chain()
         try:
             if hist == "filter_after_fit":
